@@ -15,6 +15,7 @@ CONSTANTS
   MaxAtt = 1
   Crashes = FALSE
   StartBy = 0
+  StartFrom = 0
   HealOdds = 3
   ListLag = FALSE
   FixSkew = FALSE
